@@ -171,7 +171,7 @@ fn preflight_failure<const NF: bool>() {
 // ---- the default OPTIONS handler the router registers per route ---------------------------------------
 fn eq(a: &[u8], b: &[u8]) -> bool { a.len() == b.len() && { let mut i = 0; let mut r = true; while i < a.len() { if a[i] != b[i] { r = false; } i += 1; } r } }
 
-// @verif prop=C14 tier=quick mem=12 replay=none bounds="default OPTIONS handler of a route with {GET, POST}: Access-Control-Request-Method = 3..=7 symbolic upper-case bytes, or absent"
+// @verif prop=C14 tier=quick mem=12 timeout=1500 replay=none bounds="default OPTIONS handler of a route with {GET, POST}: Access-Control-Request-Method = 3..=7 symbolic upper-case bytes, or absent"
 #[kani::proof]
 #[kani::stub(ohkami::util::unix_timestamp, stubs::unix_timestamp_zero)]
 #[kani::stub(core::str::from_utf8, stubs::from_utf8_model)]
